@@ -21,48 +21,48 @@ CLAIMED = {
     "C02": ("§5 C02", "Lean theorems: CKDpub(neuter parent) = neuter(CKDpriv parent) on every normal index and, by induction, on every "
             "normal path; hardened indexes refused on public nodes before any primitive is called" + CORR,
             NOTE + "curve group laws (mulGen additive, a*G = inf iff n | a, parse(sec P) = P) and HMAC output length are explicit "
-            "hypotheses (GroupLaws), assumed for secp256k1/python-ecdsa; the IL = 0 corner (PRF substitution only) is excluded by hypothesis", TECH),
+            "hypotheses (GroupLaws) of the general theorems and are PROVED for the concrete secp256k1 the driver runs (Props/RealCurve: Pratt certificates for p and n, Mathlib group law, G of order n), which is compared with python-ecdsa on every case; the IL = 0 corner (PRF substitution only) is excluded by hypothesis", TECH),
     "C03": ("§5 C03", "Lean theorems: seed = PBKDF2(utf8(NFKD m), utf8('mnemonic' ++ NFKD p), 2048); master = split HMAC('Bitcoin seed'); the "
             "five constructors yield the same master key material; the network flag never enters key material" + CORR,
-            NOTE + "PARTIAL: NFKD tables (CPython unicodedata), PBKDF2 and HMAC are parameters, not verified", TECH),
+            NOTE + "PARTIAL: NFKD tables (CPython unicodedata), PBKDF2 and HMAC are parameters, not verified; the xprv re-import clause is also instantiated at the concrete primitives with no curve hypothesis left (Props/RealInst/C03)", TECH),
     "C04": ("§5 C04", "Lean theorems: for 16/20/24/28/32-byte entropy the sentence has 12..24 words and its word indexes decode bit-exactly to "
             "entropy || first ENT/32 bits of SHA-256; every other decoded size and malformed hex is rejected; the embedded list equals "
             "a frozen copy of the official list (kernel-checked), is strictly sorted and injective" + CORR,
-            NOTE + "SHA-256 is a parameter (32-byte output assumed); the frozen official list is anchored by its SHA-256 digest checked by the harness", TECH),
+            NOTE + "SHA-256 is a parameter (32-byte output assumed); the frozen official list is anchored by its SHA-256 digest checked by the harness; thorough tier: mnemonic_from_entropy and its helpers are machine-translated from the source and PROVED equal to the model (Props/TrBip39)", TECH),
     "C05": ("§5 C05", "Lean theorems: each of the five address kinds on both networks decodes (with the decoders proved inverse in C10/C11) to the "
             "expected version byte / witness version and hash; script templates; RIPEMD-160 padding for every length and tables = spec" + CORR,
-            NOTE + "SHA-256 is a parameter; RIPEMD-160's 80-step compression is mirrored and compared with OpenSSL for all lengths 0..1024 (testing)", TECH),
+            NOTE + "SHA-256 is a parameter; RIPEMD-160's 80-step compression is mirrored and compared with OpenSSL for all lengths 0..1024 (testing); the address theorem is also instantiated at the concrete SHA-256 / curve (Props/RealInst/C05)", TECH),
     "C06": ("§5 C06", "Lean theorems about the report model: account path/coin/SLIP-132 versions, exactly one row per index in order, row fields "
             "belong to one key, master echo, Wasabi export" + CORR,
-            NOTE + "PARTIAL: the JSON text layer (CPython json) is trusted and only checked on the implementation", TECH),
+            NOTE + "the JSON text layer is modelled (Model/JsonText, round-trip theorems in Props/C06Json) and compared with CPython's json text-for-text; lone surrogates are outside the model", TECH),
     "C07": ("§5 C07", "Lean theorems: 78-byte layout, parse(serialize) node-equal and re-serialises identically for private and public nodes, "
             "111 characters for all 12 versions (numeric bounds), version table bijection and rejection of unknown versions, public "
             "serialisation factors through the public view, master zeros" + CORR,
-            NOTE + "curve sec/parse facts are explicit CurveLaws hypotheses", TECH),
+            NOTE + "curve sec/parse facts are explicit CurveLaws hypotheses of the general theorems, discharged for the concrete curve in Props/RealInst/C07 (RealCurve.real_curveLaws)", TECH),
     "C08": ("§5 C08", "Lean theorems: getrandbits requests exactly ENT/8 bytes once, the mnemonic's entropy IS the OS bytes (identity map, so "
             "every bit incl. the MSB is an OS bit and distinct OS outputs give distinct mnemonics), no PRNG-state argument exists; bad "
             "lengths rejected" + CORR + "; os.urandom is observed/stubbed from outside, PRNG re-seeded",
             NOTE + "PARTIAL by nature: that bip39.random is a SystemRandom over os.urandom and that the kernel CSPRNG is unpredictable are not theorems", TECH),
     "C09": ("§5 C09", "Lean theorems: WIF payload, first-character classes (numeric bounds over the whole 256-bit range), fromWif(wif k) = k for the "
             "four flavours, rejection of 0 / >= n / wrong length, SEC round trip from CurveLaws" + CORR,
-            NOTE + "curve facts are CurveLaws hypotheses; the concrete curve is compared with python-ecdsa (testing)", TECH),
+            NOTE + "curve facts are CurveLaws hypotheses of the general theorems, PROVED for the concrete Lean secp256k1 (Props/RealCurve, Props/RealInst/C09); that python-ecdsa computes the same functions is tested on every case", TECH),
     "C10": ("§5 C10", "Lean theorems: decode(encode b) = b on non-empty bytes, encode(decode s) = s on non-empty alphabet strings, leading zeros <-> "
             "leading '1', checksummed decoder accepts iff the checksum matches, foreign characters and too-short strings rejected" + CORR,
-            NOTE + "double SHA-256 is a parameter (only output length >= 4 is used)", TECH),
+            NOTE + "double SHA-256 is a parameter (only output length >= 4 is used); thorough tier: encode_base58 / decode_base58 / *_checksum / b58decode_addr are machine-translated from the source and PROVED equal to the model (Props/TrBase58)", TECH),
     "C11": ("§5 C11", "Lean theorems: encode succeeds exactly on legal (hrp, version, program) and decodes back; checksum constant by version; every "
             "rejection rule; convertbits round trip for every byte list; AND kernel-checked GF(2) linear algebra: no error pattern of weight "
             "<= 4 has zero syndrome and none of weight <= 3 maps one checksum constant to the other, at every data length <= 71" + CORR,
-            NOTE + "BCH facts are `decide +kernel` evaluations split over generated row modules, re-checked against the generator words in the source", TECH),
+            NOTE + "BCH facts are `decide +kernel` evaluations split over generated row modules, re-checked against the generator words in the source; thorough tier: ALL of bech32.py (polymod, hrp_expand, checksums, convertbits, bech32_encode/decode, encode/decode) is machine-translated from the source and PROVED equal to the model (Props/TrBech32)", TECH),
     "C12": ("§5 C12", "Lean theorems: each BIP85 application = HMAC('bip-entropy-from-k', key at the fully hardened template path) sliced as "
             "specified; parameter/index bounds enforced (negative or >= 2^31 indexes rejected); template paths injective" + CORR,
             NOTE + "HMAC, SHA-256 and the curve are parameters", TECH),
     "C13": ("§5 C13", "Lean theorems: refinement of the state machine of API calls on shared node/wallet/generator objects to a stateless function "
             "of (root, path, parameters): every table entry is a pure derivation of the root; the root is never modified; path "
             "concatenation; generator indexes" + CORR + " on random op histories, re-run stateless and multi-threaded",
-            NOTE + "PARTIAL for schedules: atoms are whole API calls; CPython's atomic list.append / re-entrant hashlib+ecdsa are trusted", TECH),
+            NOTE + "PARTIAL for schedules: the theorem's atoms are whole API calls; on the real code schedules are explored by contended-node stress runs and a deterministic single-preemption exploration at source-line granularity (sys.settrace), which is testing; CPython's atomic list.append / re-entrant hashlib+ecdsa are trusted", TECH),
     "C14": ("§5 C14", "Lean theorems: a wallet imported from an extended public key is watch-only, has no BIP85, yields no WIF / extended private key, "
             "refuses hardened derivation, and agrees with the full wallet on every normal sub-path (via C02)" + CORR,
-            NOTE + "GroupLaws hypotheses (through C02)", TECH),
+            NOTE + "GroupLaws / CurveLaws hypotheses (through C02) of the general theorems, discharged for the concrete primitives in Props/RealInst/C14", TECH),
     "C15": ("§5 C15", "Lean theorems: the filtered report has exactly the whitelisted public positions (account path/pub, row path/address/SEC), no "
             "null and no other leaf, at every depth; public leaves identical to the unfiltered report" + CORR + " incl. a leak scanner",
             NOTE + "secrets are characterised by position; decodability of leaves as private encodings is checked by the oracle on the real output", TECH),
